@@ -127,9 +127,13 @@ def gen(rng, tier):
     names = [v['name'] for v in vars_]
     mine0 = names if not two else names[::2]
     mine1 = [] if not two else names[1::2]
-    return {'vars': vars_, 'overrides': overrides, 'emit_step': rng.choice([1, 1, 2, 3]), 'length': rng.choice([3, 4, 5, 6]),
-            'procs': [{'timestep': 1.0, 'mine': mine0}] + ([{'timestep': 2.0, 'mine': mine1}] if two else []),
-            'cell_emit_all': rng.random() < 0.25, 'starstar': rng.random() < 0.3}
+    scn = {'vars': vars_, 'overrides': overrides, 'emit_step': rng.choice([1, 1, 2, 3]), 'length': rng.choice([3, 4, 5, 6]),
+           'procs': [{'timestep': 1.0, 'mine': mine0}] + ([{'timestep': 2.0, 'mine': mine1}] if two else []),
+           'cell_emit_all': rng.random() < 0.25, 'starstar': rng.random() < 0.3}
+    # the RAM emitter's own table: event grid coarser than the emit grid, so the same snapshot reaches the emitter twice
+    if rng.random() < 0.4:
+        scn['ram'] = {'scale': rng.choice([2.5, 5.0]), 'emit_step': rng.choice([1, 2, 3]), 'length': rng.choice([10, 15])}
+    return scn
 
 
 def expected_flags(scn):
@@ -221,12 +225,13 @@ def same(a, b):
     return type(a) == type(b) and a == b
 
 
-def run(scn, emit_step):
+def run(scn, emit_step, ram=None):
     flags = expected_flags(scn)
     procs, topo = {}, {}
     for i, p in enumerate(scn['procs']):
         ss = bool(scn.get('starstar')) and i == 0
-        procs['p%d' % i] = Grow({'timestep': p['timestep'], 'vars': scn['vars'], 'mine': p['mine'], 'starstar': ss})
+        procs['p%d' % i] = Grow({'timestep': p['timestep'] * (ram['scale'] if ram else 1), 'vars': scn['vars'],
+                                 'mine': p['mine'], 'starstar': ss})
         topo['p%d' % i] = {'cell': ('cell',), 'whole': ('cell', 'w')} if ss else {'cell': ('cell',)}
     init = {}
     for v in scn['vars']:
@@ -241,6 +246,11 @@ def run(scn, emit_step):
     ss = build_schema(scn)
     if ss:
         kw['store_schema'] = ss
+    if ram:
+        eng = Engine(processes=procs, topology=topo, initial_state=init, display_info=False, progress_bar=False,
+                     emitter='timeseries', emit_step=emit_step, **kw)
+        eng.update(ram['length'])
+        return eng.emitter.get_data(), []
     eng = Engine(processes=procs, topology=topo, initial_state=init, display_info=False, progress_bar=False,
                  emitter='null', emit_step=emit_step, **kw)
     rows = []
@@ -295,6 +305,21 @@ def check(scn):
         ts = [t for t, _ in rows1]
         if any(b <= a for a, b in zip(ts, ts[1:])):
             fails.append('row times not strictly increasing: %s' % ts)
+        if scn.get('ram') and not fails:
+            ram = scn['ram']
+            full, _ = run(scn, 1, ram)
+            thin, _ = run(scn, ram['emit_step'], ram) if ram['emit_step'] != 1 else (full, [])
+            for tbl, nm in ((full, 'emit_step 1'), (thin, 'emit_step %s' % ram['emit_step'])):
+                ks = list(tbl)
+                if any(b <= a for a, b in zip(ks, ks[1:])):
+                    fails.append('RAM table (%s): row times not strictly increasing: %s' % (nm, ks))
+            if 0 not in full or max(full) != ram['length']:
+                fails.append('RAM table (emit_step 1) has rows %s for a run of %s' % (list(full), ram['length']))
+            for t, row in thin.items():
+                if t not in full:
+                    fails.append('RAM table: emit_step %s has a row at %s that emit_step 1 does not have' % (ram['emit_step'], t))
+                elif full[t] != row:
+                    fails.append('RAM table: emit_step %s row at %s differs from the emit_step-1 row' % (ram['emit_step'], t))
     except Exception as e:   # noqa
         import traceback
         return ['engine raised %s: %s' % (type(e).__name__, str(e)[:200]), traceback.format_exc()[-600:]]
